@@ -72,7 +72,7 @@ func runGROUP(c *Ctx, r *Result, rule string) int {
 					if i2 == ssa.Instruction(mu) {
 						break
 					}
-					if lk, isLk := i2.(*ssa.Lookup); isLk && lk.CommaOk && lk.X == mu.Map && lk.Index == mu.Key {
+					if lk, isLk := i2.(*ssa.Lookup); isLk && lk.CommaOk && lk.X == mu.Map && sameKeyValue(c, lk.Index, mu.Key) {
 						look = lk
 					}
 				}
@@ -134,10 +134,11 @@ func pairFieldOf(v ssa.Value, entry ssa.Value) bool {
 	}
 	switch x := v.(type) {
 	case *ssa.Field:
-		return x.X == entry && fieldName(x.X.Type(), x.Field) == "pair"
+		return x.X == entry && isIntType(x.Type())
 	case *ssa.UnOp:
 		fa, ok := x.X.(*ssa.FieldAddr)
-		if !ok || fieldName(fa.X.Type(), fa.Field) != "pair" {
+		// the integer member of the entry (which pair produced the key); the other one is the item list
+		if !ok || !isIntType(x.Type()) {
 			return false
 		}
 		if al, ok := fa.X.(*ssa.Alloc); ok {
@@ -439,4 +440,23 @@ func boolEdge(cond, v ssa.Value, want bool) (int, bool) {
 		cond, neg = u.X, !neg
 	}
 	return 0, false
+}
+
+// sameKeyValue: the two key expressions denote the same string: one SSA value, or two loads of
+// the same field of the same object (s.Value read twice).
+func sameKeyValue(c *Ctx, a, b ssa.Value) bool {
+	if a == b {
+		return true
+	}
+	if c != nil && c.canon(a) == c.canon(b) {
+		return true
+	}
+	la, ok1 := a.(*ssa.UnOp)
+	lb, ok2 := b.(*ssa.UnOp)
+	if !ok1 || !ok2 || la.Op != token.MUL || lb.Op != token.MUL {
+		return false
+	}
+	fa, ok1 := la.X.(*ssa.FieldAddr)
+	fb, ok2 := lb.X.(*ssa.FieldAddr)
+	return ok1 && ok2 && fa.X == fb.X && fa.Field == fb.Field
 }
